@@ -244,6 +244,24 @@ func (vc *VC) runTop() {
 	if fc.HasModifies {
 		vc.frameObligations(fr, fc, penv, exitReach)
 	}
+	// vacuity guard: an anchored assertion or ghost update that matched no program point states nothing
+	var un []string
+	for a, cs := range fc.Asserts {
+		if !vc.anchorHit[fc.Key+"|assert|"+a] {
+			for _, c := range cs {
+				if c.Kind != "forbid" {
+					vc.specError(fr, c, fmt.Errorf("anchor `%s` matches no program point of %s", a, relFuncName(fn)))
+				}
+			}
+			un = append(un, a)
+		}
+	}
+	for _, u := range fc.Afters {
+		if !vc.anchorHit[fc.Key+"|after|"+u.Anchor] {
+			vc.specError(fr, u.Expr, fmt.Errorf("anchor `after %s` matches no program point of %s", u.Anchor, relFuncName(fn)))
+		}
+	}
+	_ = un
 }
 
 // recoverGuardOK checks structurally that fn installs a recovering deferred closure before
